@@ -1443,7 +1443,8 @@ func (p *Parser) attachSiblingsAsArgs(parentObj, targetObj *Object, numArgs uint
 		siblingObj = p.objTree.ObjectAt(siblingIndex)
 		siblingIndex = siblingObj.nextSiblingIndex
 
-		p.objTree.detach(parentObj, siblingObj)
+		// The sibling may belong to the parent's sibling list
+		p.objTree.detach(p.objTree.ObjectAt(siblingObj.parentIndex), siblingObj)
 		p.objTree.append(targetObj, siblingObj)
 	}
 	return parseResultOk
